@@ -159,6 +159,13 @@ def run_batch(R, cases, aspects=ASPECTS, tag="io", entry=False):
     if p.returncode != 0:
         raise RuntimeError("resolve_table failed: " + p.stderr.decode()[-800:])
     rt = json.loads(p.stdout)
+    # LossNode states naming an object whose module skops can only guess by scanning sys.modules are outside the model
+    skip = {k for k, v in rt.items() if v == "SKIP"}
+    if skip:
+        keep = [c for c in cases if not any(f"{m}.{k}" in skip for m, k in loss_pairs([c]))]
+        R.count("dropped:loss-name-without-__module__", len(cases) - len(keep))
+        cases[:] = keep
+        rt = {k: v for k, v in rt.items() if v != "SKIP"}
     recs = run_impl_cases(cases)
     bad = model_compare(R, cases, recs, rt, aspects=aspects, tag=tag)
     for c, r in zip(cases, recs):
